@@ -72,6 +72,16 @@ theorem jsonify_counterexample_number :
   have : (Json.decode (jsonify (.num ['0', '.', '0', '0', '0', '0', '0', '0', '-', '1', '5']))).isNone = true := by decide
   intro h; rw [h] at this; cases this
 
+/-- A number that is not finite (±Infinity, NaN: the overflow results of C02's finding F7) has no
+JSON text.  Since the repair of F67-non-finite-json `FeelNumber::jsonify` writes `null` for it (`JV.nonFinite`),
+so `jsonify_decodes` covers such a value with no hypothesis on it, alone or nested: before, the
+service answered `{"data":Infinity}`, which is not a JSON document. -/
+example : numbersOk (.list [.num ['1'], .nonFinite, .ctx [(['a'], .nonFinite)]]) = true ∧
+    Json.decode (jsonify (.list [.num ['1'], .nonFinite, .ctx [(['a'], .nonFinite)]])) =
+      some (.arr [.num ['1'], .null, .obj [(['a'], .null)]]) ∧
+    (Json.decode "Infinity".toList).isNone = true :=
+  ⟨by decide, jsonify_decodes _ (by decide), by decide⟩
+
 /-- The hypothesis `numbersOk` holds of every number the evaluator can hand to `jsonify`: the
 plain text of a finite decimal128 number (C07: `plain_eq`, `plainSpec_json`) is accepted by this
 model's JSON number automaton (`Lemmas/JsonNumberBridge.lean`) — so a number result decodes to
